@@ -264,10 +264,13 @@ def run(ctx):
     for fld, flag in (("detector_groups_", "detectorgroups_dropin_enabled_"), ("action_group_", "actiongroup_dropin_enabled_")):
         ws = [w for w in field_writes(mg, fld)]
         ctx.count("merge_moves", len(ws))
+        Xm = Expander(P, mg)
         for w in ws:
-            g = fm.guards(w)
-            rhs = mg.text(write_rhs(mg, w))
-            ctx.check(has_fact(g, True, "this->" + flag) and any(p is True and ("ruleset->%s.size()" % fld) in k.replace("->->", "->") for k, p in g),
+            g = expanded_guards(P, mg, fm, w, Xm)
+            rhs = re.sub(r"^std::move\((.*)\)$", r"\1", Xm(write_rhs(mg, w))).replace("param:ruleset", "ruleset")
+            part = r"(param:)?ruleset->%s" % re.escape(fld)
+            supplied = any((p is True and re.search(part + r"\.size\(\)", k)) or (p is False and re.search(part + r"\.empty\(\)$", k)) for k, p in g if isinstance(k, str))
+            ctx.check(has_fact(g, True, "this->" + flag) and supplied,
                       "merge:permission:" + fld, "guarded_by", mg.loc(w),
                       "%s replaced only if supplied and opened up by the base" % fld,
                       "%s replaced without the %s permission" % (fld, flag), witness_path(mg, fm, w))
